@@ -30,7 +30,8 @@ func NICode(name string) int {
 // Key tables: code -> string. Codes < 10 are syntactically valid, codes >= 10 are not.
 var (
 	V4Keys = map[uint64]string{1: "1.0.0.0/8", 2: "2.0.0.0/8", 3: "3.3.3.0/24", 4: "4.4.4.4/32",
-		11: "1.2.3.4/33", 12: "256.1.1.0/24", 13: "", 14: "garbage", 15: "1.1.1.1"}
+		11: "1.2.3.4/33", 12: "256.1.1.0/24", 13: "", 14: "garbage", 15: "1.1.1.1", 16: "2001:db8::/32", 17: "::ffff:198.51.100.0/120"}
+	// (v4 codes 16, 17 and v6 code 12 are well-formed prefixes of the other address family)
 	// 5 and 6 are other spellings of 2 and 1 (upper-case hex, uncompressed zeros): valid, and distinct keys for the RIB
 	V6Keys = map[uint64]string{1: "2001:db8::/32", 2: "2001:db8:1::/48", 3: "::/0", 4: "2001:db8::1/128", 5: "2001:DB8:1::/48", 6: "2001:db8:0:0::/32",
 		11: "2001:db8::/129", 12: "1.0.0.0/8", 13: "", 14: "garbage"}
